@@ -228,6 +228,8 @@ SCENARIOS = [
     ("override-buffer-then-nondefault", {BUFFER: 100, "CONFIG_NEIGHBOR_TABLE_SIZE": 16}),
     ("override-nondefault-then-buffer", {"CONFIG_NEIGHBOR_TABLE_SIZE": 16, BUFFER: 100}),
     ("override-lower", {"CONFIG_ADDRESS_TABLE_SIZE": 8}),
+    ("override-zero", {"CONFIG_ADDRESS_TABLE_SIZE": 0}),  # 0 is a value the schema admits, not "disabled"
+    ("override-16bit", {"CONFIG_INDIRECT_TRANSMISSION_TIMEOUT": 30000}),
     ("disable-default", {"CONFIG_STACK_PROFILE": None}),
     ("disable-nondefault", {"CONFIG_NEIGHBOR_TABLE_SIZE": None}),
     ("disable-buffer", {BUFFER: None}),
@@ -237,7 +239,7 @@ SCENARIOS = [
 @rule("R16.2", ["C16", "C14"], "T-FUN", floor=600)
 def r16_2(ctx):
     """write_config evaluated for every version 4..14 x override scenario (none; override of a default, of a
-    non-default setting, of the buffer count, in both orders; a lowering override; a disabled default /
+    non-default setting, of the buffer count, in both orders; a lowering override; an override of 0; a 16-bit value; a disabled default /
     non-default / buffer count) x NCP answers (current value below / above the value to write / unreadable / unreadable with a
     value field that equals the value to write) x
     (set accepted / rejected): each setting is set at most once; a capacity setting the user did not specify is
